@@ -271,6 +271,16 @@ class Maps:
         nm = self.b.local_name(local)
         if not defs or depth > 6:
             return nm or "_%d" % local
+        stack = self.__dict__.setdefault("_sel_stack", [])
+        if local in stack or len(stack) > 8:
+            return nm or "_%d" % local           # loop-carried: name it, do not unfold again
+        stack.append(local)
+        try:
+            return self._select(local, defs, nm, depth)
+        finally:
+            stack.pop()
+
+    def _select(self, local, defs, nm, depth):
         if self.du.single(local) is not None and depth < 6:
             o = self.du.origin_local(local)
             if o[0] != "local":
